@@ -37,8 +37,9 @@ RULE = (
     "spec by the documented rule (size/nfiles when not None, the other fields when truthy) versus the "
     "projection read attribute-wise from what comes back; key sets equal, entries equal one by one; the "
     "SQLite form is read before close (through the identity cache, by iteration and by lookup) and after "
-    "reopen; a listing with metadata must parse back (given its hash name) to the same keys, hashes and "
-    "metadata, and re-serialise to the same list/bytes. Non-trivial = some surviving entry has >=2 "
+    "reopen; a listing with metadata (per entry the Meta field named like the hash - md5/etag/checksum - is "
+    "drawn absent, equal to or different from the hash value) must parse back (given its hash name) to the "
+    "same keys, hashes and metadata, and re-serialise to the same list/bytes. Non-trivial = some surviving entry has >=2 "
     "serialised optional fields or a falsy-valued field, and some key part is outside [A-Za-z0-9]; "
     "distinct = SHA-1 of the canonical case JSON."
 )
@@ -47,9 +48,11 @@ ASSUMPTIONS = [
     "serialised Meta fields are isdir, size, nfiles, isexec, version_id, etag, checksum, md5, remote; "
     "size/nfiles are emitted when not None, the others when truthy (meta.py to_dict as documented in the anchor)",
     "Meta() and a missing meta, HashInfo without name or value and a missing hash are equal on the projection",
-    "listings with metadata: every entry has a Meta and a truthy hash of the tree's hash name, the hash name "
-    "is one that Meta carries (md5, md5-dos2unix, etag, checksum), and a Meta field of that name is unset or "
-    "equals the hash value (the listing format merges both into one JSON member)",
+    "listings with metadata: every entry has a Meta and a truthy hash of the tree's hash name, and the hash name "
+    "is one that Meta carries (md5, md5-dos2unix, etag, checksum). The listing merges the hash and the Meta field of "
+    "that name into one JSON member and the hash wins: the hash must survive; a Meta value of that name that differs "
+    "from the hash is not preserved by the unchanged code and is therefore not judged (equal or absent: it reads "
+    "back as the hash value)",
 ]
 
 NOTNONE = ("size", "nfiles")
@@ -282,33 +285,52 @@ def arm_sqlite(ops, split, d, viols):
     return model
 
 
-def tree_entries(model, hash_name):
-    """Project the index model onto a well-formed listing with metadata (see ASSUMPTIONS)."""
+OTHER_VALUES = ["5d41402abc4b2a76b9719d911017c592", "7d793037a0760186574b0282f2f435e7.dir", '"other-etag"']
+
+
+def tree_entries(model, hash_name, rel_code=None):
+    """Project the index model onto a listing with metadata (see ASSUMPTIONS).
+
+    rel_code (2 bits per entry, in sorted key order) fixes how the Meta field that carries the tree's hash
+    name (md5 / etag / checksum) relates to the entry's hash value: 0 absent, 1 equal, 2 different (a stale
+    or foreign value), 3 as the spec has it. None (old replay files): equal whenever the spec sets it."""
     import hashlib
 
     meta_name = "md5" if hash_name == "md5-dos2unix" else hash_name
     keys = [k for k in sorted(model) if k]
     leaves = [k for k in keys if not any(o != k and o[:len(k)] == k for o in keys)]
     out = {}
-    for k in leaves:
+    for n, k in enumerate(leaves):
         spec = model[k]
         hv = spec["hash"][1] if spec["hash"] and spec["hash"][1] else None
         if hv is None:
             hv = hashlib.md5(json.dumps(k).encode()).hexdigest()  # noqa: S324
         ms = dict(spec["meta"] or {})
-        if ms.get(meta_name):
+        rel = None if rel_code is None else (rel_code >> (2 * n)) & 3
+        if rel is None:
+            if ms.get(meta_name):
+                ms[meta_name] = hv
+        elif rel == 0:
+            ms.pop(meta_name, None)
+        elif rel == 1:
             ms[meta_name] = hv
+        elif rel == 2:
+            ms[meta_name] = next(v for v in [ms.get(meta_name), *OTHER_VALUES] if v and v != hv)
         out[k] = (ms, hv)
     return out, meta_name
 
 
-def arm_tree(model, hash_name, order, viols):
+def arm_tree(model, hash_name, order, viols, rel_code=None, classes=None):
     from dvc_data.hashfile.hash_info import HashInfo
     from dvc_data.hashfile.tree import Tree
 
-    entries, meta_name = tree_entries(model, hash_name)
+    entries, meta_name = tree_entries(model, hash_name, rel_code)
     if not entries:
         return 0
+    if classes is not None:
+        for ms, hv in entries.values():
+            own = ms.get(meta_name)
+            classes.append("tree:meta-hash-field=" + ("absent" if not own else "equal" if own == hv else "different"))
     tree = Tree()
     for k in [k for k in order if k in entries]:
         ms, hv = entries[k]
@@ -327,6 +349,11 @@ def arm_tree(model, hash_name, order, viols):
             m, h = got[k]
             em = typed({**ref_meta(ms), meta_name: hv})
             om = typed(obs_meta(m))
+            if ms.get(meta_name) and ms[meta_name] != hv:
+                # the listing has ONE member of that name and the unchanged code lets the hash win, so a
+                # differing Meta value is not preserved: it is not judged; the hash (below) must survive
+                em.pop(meta_name, None)
+                om.pop(meta_name, None)
             if om != em:
                 field = sorted(set(em) ^ set(om) | {f for f in em if f in om and em[f] != om[f]})[0]
                 viols.append(Viol(f"{form}:meta:{field}",
@@ -411,7 +438,7 @@ def run_case(case, ctx):
         if "sqlite" in forms:
             full = arm_sqlite(ops, case.get("split", 0), d, viols)
         if "tree" in forms:
-            n_tree = arm_tree(model, case.get("tree_hash", "md5"), order, viols)
+            n_tree = arm_tree(model, case.get("tree_hash", "md5"), order, viols, case.get("tree_rel"), classes)
 
     judged = full if full is not None else model
     rich = False
@@ -561,6 +588,7 @@ _EXTRA = st.tuples(
     _FORMS,
     st.integers(0, 8),
     st.sampled_from(TREE_HASH_NAMES),
+    st.integers(0, 4 ** 8 - 1),
 )
 
 
@@ -572,7 +600,7 @@ MUTATIONS = [("size", 0), ("size", 7), ("nfiles", 0), ("isexec", True), ("remote
 @st.composite
 def cases(draw):
     ops = draw(_OPS)
-    extra, forms, split, tree_hash = draw(_EXTRA)
+    extra, forms, split, tree_hash, tree_rel = draw(_EXTRA)
     # derived operations so that overwrites, deletions and entries on proper prefixes are frequent
     orig = ops
     for kind, i, pos in extra:
@@ -605,7 +633,7 @@ def cases(draw):
         else:
             new = {"op": "del", "key": base["key"]}
         ops = ops[:] + [new]
-    return {"ops": ops, "forms": forms, "split": split, "tree_hash": tree_hash}
+    return {"ops": ops, "forms": forms, "split": split, "tree_hash": tree_hash, "tree_rel": tree_rel}
 
 
 def run(ctx):
